@@ -106,7 +106,8 @@ def run(ck, F, E):
         cs = sorted({b.path for b, _ in callers_of(F, "Interpreter::run_next_statement")})
         allowed = ("Interpreter::continue_evaluating", "Interpreter::evaluate_impl", "Interpreter::maybe_process_command",
                    "Interpreter::stop_evaluating")
-        ck.require(all(any(sfx(c, a) for a in allowed) for c in cs), "C09:ONE:run_next_statement-callers", "one statement per call",
+        from lib import allowed_via_callers
+        ck.require(all(allowed_via_callers(F, c, allowed) for c in cs), "C09:ONE:run_next_statement-callers", "one statement per call",
                    "run_next_statement is called from %s" % [c.split("::")[-1] for c in cs],
                    "run_next_statement gained a caller: %s" % cs)
 
@@ -190,7 +191,7 @@ def run(ck, F, E):
                        "loop #%d of %s (%s) can go round without consuming a token or exiting: %s -- one host call may "
                        "never return" % (k, p, cls, det), body.span, nontrivial=(cls == "cursor"))
     ck.note("loop_classes", classes)
-    ck.floor("C09.cursor-driven loops", n_cursor, 12)
+    ck.floor("C09.cursor-driven loops", n_cursor, 8)
     for fn in ("ExpressionEvaluator::evaluate_expression", "StatementEvaluator::parse_lvalue"):
         b = F.one(fn)
         if b is not None:
